@@ -41,6 +41,7 @@ func runC12(c *eng.Ctx) {
 	everyReceiverIsAnswered(c)
 	groupingWaitOnlyWhenACollectorRuns(c)
 	missingShardIsSkippedNotRefused(c)
+	groupKeyOrderIsTheStatementOrder(c)
 	rowsInsideFirstRowsFamilyRange(c)
 	leafShipsEveryGroup(c)
 	responseErrorAlwaysExamined(c)
